@@ -253,11 +253,17 @@ CHECKS["C05"] = cfg(
 CHECKS["C14"] = cfg(
     "C14",
     technique="runtime monitoring: symbolic-DID document model rendered for any concrete DID as oracle for pack / unpack / rebase; exhaustive header mutations, truncations, trailing bytes, size boundary",
-    level_text="IOTA documents generated from mixes of self/foreign methods in every scope, references (incl. dangling), services, controllers, alsoKnownAs and custom properties are packed, unpacked for the same DID (must equal the original) and for other DIDs/networks (must equal the harness model rendered with the target DID: exactly the self references rewritten); the payload and header are checked against the model, every single-byte header mutation and truncation must be rejected, trailing bytes ignored, and pack must fail exactly beyond 65535 bytes.",
+    level_text="IOTA documents generated from mixes of self/foreign methods in every scope, references (incl. dangling), services, controllers, alsoKnownAs and custom properties are packed, unpacked for the same DID (must equal the original) and for other DIDs/networks (must equal the harness model rendered with the target DID: exactly the self references rewritten); the payload and header are checked against the model, every single-byte header mutation and truncation must be rejected, trailing bytes ignored, and pack must fail exactly beyond 65535 bytes. A second stage (harness/vhs, bin c14s) wraps packed documents into alias outputs with Ed25519 or alias state-controller/governor addresses and reads them back with IotaDocument::unpack_from_output for the same or another DID: everything but the ledger address fields must equal the harness model, and no controller of the packed document may be dropped.",
     min={"quick": {"pack_ok": 2000, "payload_matches_model": 2000, "unpack_ok": 2000, "roundtrip_same_ok": 2000, "rebase_ok": 5000, "self_refs_rewritten": 20000,
                    "foreign_refs_preserved": 20000, "header_mutations_rejected": 100000, "exhaustive_header_documents": 50, "truncations_rejected": 20000,
-                   "trailing_ignored": 2000, "oversize_rejected": 16, "bytes_rejected_by_frame": 2000, "one_element_controller_array_inputs": 50, "nontrivial": 2000},
-         "thorough": {"pack_ok": 50000, "roundtrip_same_ok": 50000, "rebase_ok": 100000, "header_mutations_rejected": 1000000, "nontrivial": 10000}},
+                   "trailing_ignored": 2000, "oversize_rejected": 16, "bytes_rejected_by_frame": 2000, "one_element_controller_array_inputs": 50, "nontrivial": 2000,
+                   "alias_output_unpacked": 1000, "alias_output_other_did": 200, "alias_output_with_controllers_ed25519_state_controller": 200},
+         "thorough": {"pack_ok": 50000, "roundtrip_same_ok": 50000, "rebase_ok": 100000, "header_mutations_rejected": 1000000, "nontrivial": 10000,
+                      "alias_output_unpacked": 20000, "alias_output_with_controllers_ed25519_state_controller": 4000}},
+    quick=[{"flavour": "checked", "shards": 8, "timeout": 600},
+           {"flavour": "checked", "package": "vhs", "bin": "c14s", "shards": 8, "timeout": 600}],
+    thorough=[{"flavour": "checked", "shards": 16, "timeout": 3000},
+              {"flavour": "checked", "package": "vhs", "bin": "c14s", "shards": 16, "timeout": 3000}],
     assumptions=["documents never contain the placeholder did:0:0 (excluded by the statement)",
                  "targets for which rewriting would make two entries coincide are run under the panic monitor but not judged",
                  "custom method data never carries extra properties (the JSON form is inherently ambiguous there)"],
